@@ -55,7 +55,8 @@ type msmCase struct {
 	sc      []*big.Int
 	ptClass string
 	scClass string
-	tie     bool // scalars of adjacent inputs were made equal (same bucket in every chunk)
+	tie     bool   // scalars of adjacent inputs were made equal (same bucket in every chunk)
+	entry   string // "" for MultiExp, "fold_" for Fold (label prefix)
 	in      inputH
 	exp     *big.Int // expected dlog
 }
